@@ -397,6 +397,47 @@ def r12_subgroup_cursor(chk, prog, rule='R12'):
     return n
 
 
+def r13_value_list_check(chk, prog, rule='R13'):
+    """the value-list check values( "a,b,c" [, ignore case]) accepts exactly the listed values: the case-insensitive
+    branch compares the value with EVERY stored value (the set is ordered case-sensitively, so no ordering argument
+    may end the scan early: the loop is left only by the return of a match or at its end, and the refusal follows the
+    complete scan); the case-sensitive branch refuses exactly when the lookup yields end()"""
+    from ..rules import loops_in, loop_header
+    f = prog.one('celma::prog_args::detail::CheckValues', 'checkValue')
+    cfg = f.cfg
+    loops = loops_in(f)
+    chk.require(loops, 'CheckValues::checkValue: scan loop of the ignore-case branch not found')
+    for loop in loops:
+        h = loop_header(cfg, loop)
+        body = cfg.succ[h][0]
+        out = cfg.succ[h][1]
+        seen = cfg.reach((body, 0), lambda pos, e: pos[0] == h)
+        brk = out is not None and out != cfg.exit and (out, 0) in seen
+        # returns inside the loop must depend on the comparison of the value with the element
+        rets = [x for x in walk(loop) if x.get('k') == 'ReturnStmt']
+        cmp_ok = bool(rets) and all(any(cond is not None and any(
+            y.get('k') in CALL_KINDS and (y.get('callee') or '').split('::')[-1].split('<')[0] in ('iequals', 'operator==')
+            for y in walk(cond)) and cfg.guarded_by_edge(cfg.position(r), bid, 0) for bid, cond in cfg.cond_blocks())
+            for r in rets)
+        chk.check(not brk and cmp_ok, rule, f.name, 'the case-insensitive check compares the value with every listed '
+                  'value', f.loc(loop), 'the scan can be left by break before all values were compared' if brk else
+                  'a return inside the scan does not depend on an equality comparison')
+        thr = [x for x in f.walk() if x.get('k') == 'CXXThrowExpr' and not any(x is y for y in walk(loop))]
+        chk.check(bool(thr), rule, f.name, 'a value that matches no listed value is refused', f.loc())
+    finds = [c for c in f.calls() if c.get('k') == 'CXXMemberCallExpr' and (c.get('callee') or '').endswith('::find')]
+    ok = False
+    for bid, cond in cfg.cond_blocks():
+        c0 = strip_all_casts(cond) if cond else None
+        if c0 is not None and c0.get('k') in ('CXXOperatorCallExpr', 'BinaryOperator') and c0.get('op') in ('==', '!=') and \
+                any(y in finds for y in walk(c0)) and any(
+                    y.get('k') in CALL_KINDS and (y.get('callee') or '').split('::')[-1] in ('end', 'cend') for y in walk(c0)):
+            edge = 0 if c0.get('op') == '==' else 1
+            tgt = cfg.succ[bid][edge]
+            seen = cfg.reach((tgt, 0)) if tgt is not None else set()
+            ok = not any(p_[0] == 'exit_from' and cfg.exit_kind(p_[1]) == 'return' for p_ in seen)
+    chk.check(ok, rule, f.name, 'the case-sensitive check refuses exactly the values that are not in the set', f.loc())
+
+
 def run(chk):
     prog, units = rules.prog_args_program()
     chk.units = units
@@ -444,6 +485,8 @@ def run(chk):
     c04_cursor.run(chk, prog, rule='R11')
     chk.rule('R12', 'the main handler continues with the first word the sub-group handler did not consume', 6)
     r12_subgroup_cursor(chk, prog)
+    chk.rule('R13', 'the value-list check accepts exactly the listed values', 3)
+    r13_value_list_check(chk, prog)
     sub = type(chk)(chk.pid, chk.tier)
     sub._known = []
     c02.r3_canonical_key(sub, prog)
